@@ -419,3 +419,52 @@ def ob_send_stream_transparent(report, prop):
         ob.done([ex], 'held', '', {'paths': len(res)}, paths=len(res))
     return guarded(report, 'send_stream_write_is_transparent', '<SendStream as AsyncWrite>::poll_write: exactly one quinn poll_write per call, with the caller\'s whole buffer, result passed through '
                    '(error type converted); so the bytes the framing layer writes are the bytes QUIC carries, once', ['<connection::SendStream as AsyncWrite>::poll_write'], {'loop_unroll': 3}, body)
+
+
+ATOMIC_RMW = re.compile(r'Atomic\w*(::<[^>]*>)?::(fetch_add|fetch_sub|fetch_update|fetch_max|fetch_min|fetch_and|fetch_or|fetch_xor|store|swap|compare_exchange(_weak)?)$')
+
+
+def ob_rpc_state_released_on_drop(report, prop):
+    """an abandoned RPC leaves no bookkeeping behind: whatever shared counter the caller side updates before a suspension point of do_rpc and puts
+    back when the call completes must be put back by a Drop (dropping the future - caller gone, timeout layer fired, select! took another arm -
+    skips everything after the await)"""
+    def body(ob):
+        ex = e2.executor('anemo', [], max_depth=3)
+        ex.explore_pending = True
+        parent = find_method(ex.prog, 'Peer', 'do_rpc')
+        fn = find_closure(ex.prog, parent, [0])
+        p, args = coroutine_start(ex, fn)
+        res = ex.run(fn, args, p)
+
+        def rmw(r):
+            out, stack = [], []
+            for i, e in enumerate(r.events):
+                if e.kind == 'enter':
+                    stack.append(str(e.name))
+                elif e.kind == 'leave' and stack:
+                    stack.pop()
+                elif e.kind == 'call' and ATOMIC_RMW.search(re.sub(r'::<[^<>]*(<[^<>]*>[^<>]*)*>$', '', str(e.name))):
+                    tgt = vname(ex.deref(r.path, e.args[0])) if e.args and isinstance(e.args[0], Ptr) else (vname(e.args[0]) if e.args else '?')
+                    out.append((i, re.sub(r'::<.*$', '', str(e.name).replace('Atomic::<usize>', 'Atomic')).rsplit('::', 1)[-1], tgt, any(re.search(r' as Drop>::drop$|drop_in_place', x) for x in stack)))
+            return out
+        suspended = [r for r in res if r.tag == 'return' and isinstance(r.ret, Agg) and r.ret.name == 'Poll' and r.ret.variant == 'Pending']
+        done = [r for r in res if r.tag == 'return' and isinstance(r.ret, Agg) and r.ret.name == 'Poll' and r.ret.variant == 'Ready']
+        if not suspended or not done:
+            return ob.done([ex], 'inconclusive', f'vacuity: suspended paths={len(suspended)} completed paths={len(done)}', paths=len(res))
+        # counters touched while the future is still pending ...
+        held = {}
+        for r in suspended:
+            for i, op, tgt, in_drop in rmw(r):
+                held.setdefault(tgt, r)
+        # ... and put back explicitly (not by a Drop) on a completion path
+        for r in done:
+            ops = rmw(r)
+            for tgt in {t for _, _, t, _ in ops}:
+                mine = [o for o in ops if o[2] == tgt]
+                if tgt in held and len(mine) >= 2 and not mine[-1][3]:
+                    return viol(prop, ob, [ex], f'do_rpc updates the shared counter {tgt} ({mine[0][1]}) before it first suspends and restores it ({mine[-1][1]}) only on the path where the call '
+                                'completes: an RPC abandoned while pending (caller dropped the future, a timeout fired) never restores it - bookkeeping leaks with every abandoned call',
+                                'rpc-state-leaks-on-drop', path_summary(held[tgt]), len(res))
+        ob.done([ex], 'held', '', {'paths': len(res), 'suspended_paths': len(suspended), 'counters_touched_while_pending': sorted(held)}, paths=len(res))
+    return guarded(report, 'abandoned_rpc_leaves_no_bookkeeping', 'Peer::do_rpc: no shared atomic counter is changed before a suspension point and restored only by code after it (restoring must '
+                   'happen in a Drop so that dropping the pending future restores it too)', ['Peer::do_rpc'], {'inline_depth': 3, 'schedule': 'every await may be Pending'}, body)
